@@ -9,6 +9,7 @@ import (
 	"os/exec"
 	"runtime"
 	"runtime/debug"
+	"strings"
 	"sync"
 
 	gocvss30 "github.com/pandatix/go-cvss/30"
@@ -38,6 +39,26 @@ func mallocsOf(reps int, f func()) uint64 {
 	var m1, m2 runtime.MemStats
 	best := ^uint64(0)
 	for i := 0; i < reps; i++ {
+		runtime.ReadMemStats(&m1)
+		f()
+		runtime.ReadMemStats(&m2)
+		if d := m2.Mallocs - m1.Mallocs; d < best {
+			best = d
+		}
+		if best == 0 {
+			break
+		}
+	}
+	return best
+}
+
+// mallocsAfter measures f where every repetition is preceded by an unmeasured call of pre
+// (history dependence of the budget, e.g. a rejected parse that does not hand its buffer back).
+func mallocsAfter(reps int, pre, f func()) uint64 {
+	var m1, m2 runtime.MemStats
+	best := ^uint64(0)
+	for i := 0; i < reps; i++ {
+		pre()
 		runtime.ReadMemStats(&m1)
 		f()
 		runtime.ReadMemStats(&m2)
@@ -84,6 +105,27 @@ func (w *c17Worker) measure(ver, call, what string, lo, hi uint64, f func()) {
 	w.out.Hist[fmt.Sprintf("v%s %s=%d", ver, call, got)]++
 	if got < lo || got > hi {
 		got = mallocsOf(20, f)
+		if got < lo || got > hi {
+			if len(w.out.Violations) < 50 {
+				w.out.Violations = append(w.out.Violations, c17Viol{
+					Key:      fmt.Sprintf("v%s/%s/allocs=%d", ver, call, got),
+					Expected: fmt.Sprintf("between %d and %d heap allocations", lo, hi),
+					Observed: fmt.Sprintf("%d allocations (minimum of 20 measurements) for %s", got, what),
+					Args:     map[string]any{"version": ver, "call": call, "what": what},
+				})
+			}
+		}
+	}
+}
+
+// measureAfter: like measure, with an unmeasured preceding call.
+func (w *c17Worker) measureAfter(ver, call, what string, lo, hi uint64, pre, f func()) {
+	f()
+	got := mallocsAfter(3, pre, f)
+	w.out.Cases++
+	w.out.Hist[fmt.Sprintf("v%s %s=%d", ver, call, got)]++
+	if got < lo || got > hi {
+		got = mallocsAfter(20, pre, f)
 		if got < lo || got > hi {
 			if len(w.out.Violations) < 50 {
 				w.out.Violations = append(w.out.Violations, c17Viol{
@@ -274,6 +316,42 @@ func C17Worker(shard, n int, tier string) {
 						w.measure(ver.Name, "ParseVector(non-canonical)", str, 0, 1, func() { o, e := p.parse(str); sinkP, sinkE = o, e })
 					}
 				}
+			}
+		}
+	}
+	// successful ParseVector right after a rejected / other call (history dependence of the budget)
+	for _, p := range parsers {
+		p := p
+		ver := p.ver
+		good := ver.Join(elemsOf(ver, definedRot(ver, 1), nil))
+		goodMin := ver.Join(elemsOf(ver, definedRot(ver, 2), func(i int) bool { return ver.Mandatory(i) }))
+		full := elemsOf(ver, definedRot(ver, 1), nil)
+		var bads []string
+		for _, pos := range []int{0, 1, len(full) / 2, len(full) - 1} {
+			x := append([]string(nil), full...)
+			x[pos] = strings.SplitN(x[pos], ":", 2)[0] + ":BAD"
+			bads = append(bads, ver.Join(x)) // illegal value at this position
+			y := append([]string(nil), full...)
+			y[pos] = "ZZ:N"
+			bads = append(bads, ver.Join(y)) // unknown abbreviation
+			if pos+1 < len(full) {
+				z := append([]string(nil), full...)
+				z[pos], z[pos+1] = z[pos+1], z[pos]
+				bads = append(bads, ver.Join(z)) // order (v2/v4) or still valid (v3)
+			}
+			bads = append(bads, ver.Join(full[:pos+1]), ver.Join(full[:pos+1])+"/")
+		}
+		bads = append(bads, "", good+"/", good+"/"+full[0], "CVSS:9.9/"+good, goodMin)
+		for _, bad := range bads {
+			if !w.mine() {
+				continue
+			}
+			bad := bad
+			for _, g := range []string{good, goodMin} {
+				g := g
+				w.measureAfter(ver.Name, "ParseVector(after another call)", fmt.Sprintf("%q after %q", g, bad), 0, 1,
+					func() { o, e := p.parse(bad); sinkP, sinkE = o, e },
+					func() { o, e := p.parse(g); sinkP, sinkE = o, e })
 			}
 		}
 	}
